@@ -285,3 +285,27 @@ fn k_update_headers_runtime_size_fresh() {
     kani::cover!(true, "reachable");
     core::mem::forget(mdl);
 }
+
+//@use_common
+
+//@unit props=C18 label=B tier=quick native=1 fn=model::MDL::from_existing bound="by execution: resources/tests/c0201e0038_top_zeroed.mdl (287232 bytes): truncations and 7 single-byte corruptions at every 16th of the first 2200 positions (file header, declarations, string table, model header start), the last 64 and every 20011th position in between; thorough tier: every one of the first 2200 positions and every 2503rd beyond"
+//@desc damaged models (truncated, any header / declaration / string / mesh-table byte damaged) yield None or a value, never a panic
+#[test]
+fn native_mdl_damaged_nopanic() {
+    let v = native_resource("c0201e0038_top_zeroed.mdl");
+    let f = |b: &[u8]| { let _ = MDL::from_existing(b); };
+    let mut s = NativeSites::new();
+    if native_thorough() { s.sweep(&v, 2200, 2503, &f); }
+    else {
+        // sparse version of the same sweep: a copy of the file in which only every 16th header position is visited
+        let pick: Vec<usize> = (0..v.len()).filter(|i| (*i < 2200 && i % 16 == 0) || i % 20011 == 0 || i + 64 >= v.len()).collect();
+        for t in pick.iter() { s.run(&f, &v[..*t], &format!("truncation to {t} bytes")); }
+        let mut w = v.clone();
+        for i in pick.iter() {
+            let o = v[*i];
+            for c in [0u8, 1, 0x7F, 0x80, 0xFF, o.wrapping_add(1), o.wrapping_sub(1)] { if c != o { w[*i] = c; s.run(&f, &w, &format!("byte {i} changed from {o:#04x} to {c:#04x}")); } }
+            w[*i] = o;
+        }
+    }
+    s.finish("native_mdl_damaged_nopanic");
+}
